@@ -29,7 +29,7 @@ CHECK_DEADLOCK FALSE
 """
 GEN = "SPECIFICATION Spec\nCONSTANTS\n  MaxLen = %d\n  Dim = %d\nCHECK_DEADLOCK FALSE\n"
 JUDGE = "SPECIFICATION Spec\nCHECK_DEADLOCK FALSE\n"
-CLAUSES = {"terminates", "manifold", "euler", "novert", "keep", "exact", "rule"}
+CLAUSES = {"terminates", "manifold", "simple", "euler", "novert", "keep", "exact", "rule"}
 # the guard of canEliminateSegment as it is in the code now: "code" = duplicate-face test only,
 # "link" = duplicate-face test and link condition
 CODE_GUARD = "link"
